@@ -125,16 +125,26 @@ var predFns = []func(a, b geom.Geometry) (bool, error){
 }
 
 func pairOnPanic(c Case) Event {
+	if c.str("kind") == "matches" {
+		return Event{"kind": "matches", "a": []*flat{}, "b": []*flat{}, "gp": false, "err": "", "ab": "", "ba": "", "preds": []bool{}, "m": c.str("m"), "p": c.str("p"), "res": false}
+	}
 	a0, b0 := mustWKT(c.str("wa")), mustWKT(c.str("wb"))
 	_, gp := mapOf(c)
-	return Event{"a": parts(a0), "b": parts(b0), "gp": gp, "err": "", "ab": "", "ba": "", "preds": []bool{}}
+	return Event{"kind": "pair", "a": parts(a0), "b": parts(b0), "gp": gp, "err": "", "ab": "", "ba": "", "preds": []bool{}, "m": "", "p": "", "res": false}
 }
 
 func relateExec(c Case) Event {
+	if c.str("kind") == "matches" {
+		ev := Event{"kind": "matches", "a": []*flat{}, "b": []*flat{}, "gp": false, "err": "", "ab": "", "ba": "", "preds": []bool{},
+			"m": c.str("m"), "p": c.str("p"), "res": false}
+		res, err := geom.RelateMatches(c.str("m"), c.str("p"))
+		ev["res"], ev["err"] = res, errStr(err)
+		return ev
+	}
 	a0, b0 := mustWKT(c.str("wa")), mustWKT(c.str("wb"))
 	f, gp := mapOf(c)
 	a, b := imageOf(a0, f), imageOf(b0, f)
-	ev := Event{"a": parts(a0), "b": parts(b0), "gp": gp, "err": ""}
+	ev := Event{"kind": "pair", "a": parts(a0), "b": parts(b0), "gp": gp, "err": "", "m": "", "p": "", "res": false}
 	ab, err := geom.Relate(a, b)
 	if err != nil {
 		ev["err"] = errStr(err)
